@@ -5,6 +5,7 @@
 package vleveldb
 
 import (
+	"errors"
 	"sync"
 
 	"github.com/syndtr/goleveldb/leveldb"
@@ -40,6 +41,24 @@ func call(path, op, phase string, key []byte) {
 	}
 }
 
+// InjectedFailure: a hook that panics with this value in phase "pre" makes the write FAIL (the
+// error is returned to the caller, nothing is written) instead of crashing the process.
+type InjectedFailure struct{ Msg string }
+
+func callPre(path, op string, key []byte) (err error) {
+	defer func() {
+		if r := recover(); r != nil {
+			if f, ok := r.(InjectedFailure); ok {
+				err = errors.New(f.Msg)
+				return
+			}
+			panic(r)
+		}
+	}()
+	call(path, op, "pre", key)
+	return nil
+}
+
 type DB struct {
 	inner *leveldb.DB
 	path  string
@@ -60,14 +79,18 @@ func (d *DB) Get(key []byte, ro *opt.ReadOptions) ([]byte, error) { return d.inn
 func (d *DB) Has(key []byte, ro *opt.ReadOptions) (bool, error)   { return d.inner.Has(key, ro) }
 
 func (d *DB) Put(key, value []byte, wo *opt.WriteOptions) error {
-	call(d.path, "put", "pre", key)
+	if err := callPre(d.path, "put", key); err != nil {
+		return err
+	}
 	err := d.inner.Put(key, value, wo)
 	call(d.path, "put", "post", key)
 	return err
 }
 
 func (d *DB) Delete(key []byte, wo *opt.WriteOptions) error {
-	call(d.path, "delete", "pre", key)
+	if err := callPre(d.path, "delete", key); err != nil {
+		return err
+	}
 	err := d.inner.Delete(key, wo)
 	call(d.path, "delete", "post", key)
 	return err
